@@ -75,7 +75,7 @@ class NetMask(Resource):
     def make_netmask(cls, string: str | int, afi: AFI) -> NetMask:
         if afi == AFI.ipv4:
             if isinstance(string, str) and string in cls.codes:
-                klass = cls(cls.codes[string])
+                klass = int.__new__(cls, cls.codes[string])
                 klass.maximum = 32
                 return klass
             maximum = 32
@@ -93,6 +93,8 @@ class NetMask(Resource):
         if value < 0 or value > maximum:
             raise ValueError('invalid netmask {}'.format(string))
 
-        klass = cls(value)
+        # not cls(value): Resource keeps one shared instance per value, and /32 is a different
+        # mask for IPv4 (a host) and for IPv6 - setting maximum on the shared instance changed the other one
+        klass = int.__new__(cls, value)
         klass.maximum = maximum
         return klass
